@@ -110,4 +110,36 @@ theorem find_threshold_le (num k size : Nat) (h : num ≤ 2 ^ k) : findThreshold
   exact Nat.mul_le_mul_right size h
 example : findThreshold 1 1 7 = 3 := by decide
 
+/-- T-linear_history: `LinearIndex::select` keeps exactly the datasets whose manifest row passes the
+selection, in their old order (a dataset's id is its position among the survivors) and carries the
+template over; a lookup on the narrowed index that does not panic (every remaining sketch compatible
+with the template and the query) reports the exact overlaps with the remaining datasets.  By induction
+the same holds after any succession of selects and lookups: the model's index has no other state. -/
+theorem linear_select_exact (l l' : Lin) (sel : Sel) (q : Rec) (cnt : List (Nat × Nat))
+    (hs : l.select sel = .ok l') (hc : l'.counter q = some cnt)
+    (hq : q.hashes.Nodup) (hd : ∀ r ∈ l.recs, r.hashes.Nodup) :
+    l'.recs = l.recs.filter (rowValid sel) ∧ l'.template = l.template ∧
+      cnt = refCounter (l'.recs.map (·.hashes)) q.hashes := by
+  have hl : l'.recs = l.recs.filter (rowValid sel) ∧ l'.template = l.template := by
+    unfold Lin.select at hs
+    simp only at hs
+    split at hs
+    · injection hs with hs; subst hs; exact ⟨rfl, rfl⟩
+    · cases hs
+  refine ⟨hl.1, hl.2, ?_⟩
+  unfold Lin.counter at hc
+  split at hc
+  · injection hc with hc
+    rw [← hc]
+    apply linear_exact _ _ hq
+    intro D hD
+    obtain ⟨r, hr, rfl⟩ := List.mem_map.mp hD
+    rw [hl.1] at hr
+    exact hd r (List.mem_filter.mp hr).1
+  · cases hc
+example : (Lin.make [⟨0, 21, 0, false, 0, 9, 1, [1, 2]⟩, ⟨1, 21, 0, true, 0, 9, 1, [2, 3]⟩, ⟨2, 21, 0, true, 0, 9, 1, [3]⟩]).bind
+    (fun l => match l.select { abund := some true } with
+      | .ok l' => l'.counter ⟨0, 21, 0, false, 0, 9, 1, [2, 3]⟩
+      | .error _ => none) = some [(0, 2), (1, 1)] := by decide
+
 end Sourmash.C07
